@@ -232,6 +232,9 @@ def run(tier, seed, shape_only=False):
             nren = sum(1 for a in acts if a[0] == "rename")
             for i in range(1, nren + 1):
                 jobs.append((mode, "sigkill", f"rename:signal=SIGKILL:when={i}", 0, new_bytes))
+            # genuine buffered writers: die right before / right after every rename (what is still in a user-space buffer is lost)
+            for i in range(1, 2 * max(nren, 1) + 1):
+                jobs.append((mode, "realreplace", i, 0, new_bytes))
         # Coq check of the observed shapes
         if terms:
             bad = run_case_files(HEADER, "bool", "(fun b : bool => b)", [t for _, t, _ in terms], shard=4)
